@@ -59,6 +59,10 @@ func c15Gen(tier string, emit func(c15Case)) {
 			ops = append(ops, api+":"+name)
 		}
 	}
+	// renaming an already registered route (the first / the previous one) with NamedTo
+	for _, name := range []string{"n1", "n2"} {
+		ops = append(ops, "RenameFirst:"+name, "RenamePrev:"+name)
+	}
 	maxL := 3
 	if tier == "thorough" {
 		maxL = 4
@@ -89,6 +93,7 @@ func c15Run(c c15Case, st *fw.Stats) []fw.Viol {
 		st.Evals++
 		r := rux.New()
 		want := map[string]*rux.Route{}
+		var all []*rux.Route
 		for i, op := range c.Ops {
 			parts := strings.SplitN(op, ":", 2)
 			api, name := parts[0], parts[1]
@@ -103,7 +108,19 @@ func c15Run(c c15Case, st *fw.Stats) []fw.Viol {
 			case "NamedTo":
 				rt = r.GET(path, c13Noop)
 				rt.NamedTo(name, r)
+			case "RenameFirst", "RenamePrev":
+				if len(all) == 0 {
+					continue
+				}
+				rt = all[0]
+				if api == "RenamePrev" {
+					rt = all[len(all)-1]
+				}
+				rt.NamedTo(name, r)
+				want[name] = rt
+				continue
 			}
+			all = append(all, rt)
 			want[name] = rt
 		}
 		if len(c.Ops) > 1 {
@@ -117,7 +134,7 @@ func c15Run(c c15Case, st *fw.Stats) []fw.Viol {
 					gp = got.Path()
 				}
 				add("naming:last-wins", fmt.Sprintf("naming operations %v: GetRoute(%q) returns route %s, the route most recently registered under that name is %s", c.Ops, name, gp, rt.Path()))
-			} else if got.Name() != name {
+			} else if got.Name() != name && !strings.Contains(strings.Join(c.Ops, " "), "Rename") {
 				add("naming:name", fmt.Sprintf("naming operations %v: GetRoute(%q).Name() = %q", c.Ops, name, got.Name()))
 			}
 			if u := try(func() { r.BuildURL(name, "{id}", "5") }); u != nil {
@@ -282,7 +299,7 @@ var c15Spec = fw.Spec[c15Case]{
 	ID:    "C15",
 	Level: "model_checking",
 	Rule: "complete product: 14 named templates (static, default / custom / global variable regexes, 1-3 variables, literal prefix and suffix around a variable, '.' in the literal text) x ALL value tuples over 19 values (spaces, non-ASCII, %, ?, #, ;, encoded slash, dots, slash where the regex admits it) that satisfy the variables' regexes x 3 argument styles (M map, key/value pairs, BuildRequestURL builder) x 4 sets of extra query arguments; " +
-		"each built URL is matched (Match on u.Path) and requested (ServeHTTP on a request parsed from u.String()); naming: all sequences of <=3 (thorough 4) naming operations over 2 names x {AddNamed, NewNamedRoute+AddRoute, route.NamedTo}; non-trivial = a template with variables / a sequence of >=2 naming operations",
+		"each built URL is matched (Match on u.Path) and requested (ServeHTTP on a request parsed from u.String()); naming: all sequences of <=3 (thorough 4) naming operations over 2 names x {AddNamed, NewNamedRoute+AddRoute, route.NamedTo on a new route, NamedTo renaming the first / the previous route}; non-trivial = a template with variables / a sequence of >=2 naming operations",
 	Assume: []string{"values containing '{' or '}' are excluded: Build substitutes in Go map order, which the harness cannot own", "routes without optional parts, as the statement says", "value tuples that spell a path which is not in normal form (white space or '/' at the very end) are skipped: path normalisation (C11) ignores those characters by design"},
 	Bounds: func(tier string) map[string]any {
 		return map[string]any{"templates": len(c15Templates), "values": len(c15Values), "styles": 3, "extras": len(c15Extras)}
